@@ -3,7 +3,7 @@ from .. import core
 from ..engines import jump
 
 PROP = "C04"
-BUDGET = {"quick": 480, "thorough": 12000}
+BUDGET = {"quick": 1400, "thorough": 30000}
 ALARM_S = 900
 RULE = ("seeded random event models (1-5 states, 1-5 events of 1-3 T/B/D transitions, integer magnitudes 1-3, "
         "optional limits, range-style names) x integer x0 x horizon x {exact, adaptive tau, fixed tau} x "
